@@ -1106,10 +1106,6 @@ def run(chk):
         "const-nonconst-call (`const X: int = 7 // 2` emitted as a non-const fn call) is a C02 defect: such a const never holds a value, so C06 has nothing to compare; the generator of the build tier stays inside the buildable fragment",
         "frozen collection VALUES are compared by execution only (thorough tier)",
     ]
-    if not chk.findings:  # TEMPORARY fallback until the lead merges build/kf-C06.json into known_findings.json
-        p = os.path.join(vlib.VERIF, "build", "kf-C06.json")
-        if os.path.exists(p):
-            chk.findings = json.load(open(p))
     res = chk.proof_stage("C06", allow_axioms=(), rs2v_units=["CoreNum"])
     binary = vlib.build_harness("debug")
     rng = chk.rng
